@@ -15,3 +15,4 @@ rsync -a --delete /verif/sim/harness/ $D/repo/zzverif/
 printf 'package main\n\nimport _ "github.com/openconfig/goyang/zzverif/clihook"\n' > $D/repo/zz_clihook.go
 cd $D/repo && go build ./zzverif/... && go build -trimpath -o $D/yangsim ./zzverif/cmd/yangsim && go build -trimpath -o $D/goyang-cli . && echo built $D/yangsim
 go build -trimpath -o $D/yangdbg ./zzverif/cmd/yangdbg
+if [ "${DEV_RACE:-0}" = "1" ]; then go build -race -trimpath -o $D/yangsim-race ./zzverif/cmd/yangsim && echo built race; fi
